@@ -165,7 +165,7 @@ enum Item {
 
 pub fn run(ctx: &Ctx) -> Report {
     let mut work = vec![];
-    let dense: u64 = ctx.pick(1 << 9, 1 << 17, 1 << 21);
+    let dense: u64 = ctx.pick(1 << 9, 1 << 19, 1 << 21);
     let chunks = 32;
     for c in 0..chunks {
         work.push(Item::Dense(c * dense / chunks, (c + 1) * dense / chunks));
@@ -209,7 +209,7 @@ pub fn run(ctx: &Ctx) -> Report {
                     }
                 }
             }
-            for _ in 0..ctx.pick(50, 100_000, 1_000_000) {
+            for _ in 0..ctx.pick(50, 300_000, 1_000_000) {
                 vals.push(rng.log_uniform(64));
             }
             for (i, v) in vals.iter().enumerate() {
